@@ -994,10 +994,11 @@ func (ctx *RenderContext) EvaluateExpression(node Node) (interface{}, error) {
 		if n.test == "defined" {
 			// Check if this is a GetAttrNode
 			if getAttrNode, ok := n.node.(*GetAttrNode); ok {
-				// Evaluate the object
+				// Evaluate the object; a failure while doing so (a failing function or
+				// filter, an unknown name) is an error, not "undefined"
 				obj, err := ctx.EvaluateExpression(getAttrNode.node)
 				if err != nil {
-					return false, nil // If can't evaluate the object, it's not defined
+					return nil, err
 				}
 
 				// If obj is nil, attribute not defined
@@ -1008,7 +1009,7 @@ func (ctx *RenderContext) EvaluateExpression(node Node) (interface{}, error) {
 				// Evaluate the attribute name
 				attrNameNode, err := ctx.EvaluateExpression(getAttrNode.attribute)
 				if err != nil {
-					return false, nil
+					return nil, err
 				}
 
 				attrName, ok := attrNameNode.(string)
